@@ -181,27 +181,27 @@ func main() {
 
 
 def reader_case(rng, n):
-    """(source bytes, ops) - a call sequence within the reader's contract: NUL-free source; a Retract gives back bytes
-    of the pending lexeme and leaves at most one half outstanding; at a Lexeme, lexeme plus look-ahead fit into a half"""
+    """(source bytes, ops) - a call sequence within the reader's contract: NUL-free source; a Retract gives back bytes of the
+    pending lexeme and leaves at most one half outstanding. Lexemes may be much longer than the buffer."""
     ln = rng.choice([0, 1, n - 1, n, n + 1, 2 * n - 1, 2 * n, 2 * n + 1, 3 * n, 4 * n + 1, rng.randrange(0, 6 * n + 2)])
     ln = max(0, ln)
     data = bytes((rng.choice([10, 32, 97, 98, 255, 128]) if rng.random() < 0.5 else rng.randrange(1, 256)) for _ in range(ln))
     k = p = kb = 0
     ops = []
     steps = rng.choice([ln + 3, 2 * ln + 5, 3 * ln + 8])
+    long_lexemes = rng.random() < 0.4        # this run seldom takes its lexeme: they grow past one half, past the whole buffer
     for _ in range(min(steps, 40000)):
-        room = kb + n - (k + p)            # what may still be read before the lexeme no longer fits
         c = rng.random()
-        if c < 0.62 and (room > 0 or p > 0 or rng.random() < 0.1):
+        if c < 0.62:
             ops.append("n")
             if k < ln:
                 k += 1; p = max(0, p - 1)
         elif c < 0.80 and min(k - kb, n - p) >= 1:
             size = rng.randint(1, min(k - kb, n - p, 4 if rng.random() < 0.7 else n))
             ops.append("r%d" % size); k -= size; p += size
-        elif c < 0.93 and k + p <= kb + n:
+        elif c < (0.82 if long_lexemes else 0.93):
             ops.append("l"); kb = k
-        else:
+        elif not long_lexemes or c > 0.98:
             ops.append("s"); kb = k
     return data, ops
 
@@ -256,7 +256,7 @@ def reader_correspondence(ctx, d, pkg, env, stats, quick):
 TOKNAMES = ["ID", "NUM", "KW", "OP", "WS", "EOL", "COMMENT", "STR", "AB"]
 PATTERNS = {"ID": ["[a-z]+", "[a-z][a-z0-9_]*", "[a-zA-Z_]+", "[a-z\\x00E0-\\x00FF]+"], "NUM": ["[0-9]+", "[0-9]+(\\.[0-9]+)?", "-?[0-9]+"],
             "KW": ["if|in|int", "while"], "OP": ["=+", "<=?", "\\+\\+?|-"], "WS": ["[ \\x09]+", " +"], "EOL": ["\\x0A", "\\x0D?\\x0A"],
-            "COMMENT": ["#[a-z ]*", "//[a-z]*"], "STR": ["'[a-z ]*'", "\\x22[a-z]*\\x22"], "AB": ["(ab)*c", "(ab)+", "a(bc)*d", "\\x03B1+"]}
+            "COMMENT": ["#[a-z ]*", "//[a-z]*"], "STR": ["'[a-z ]*'", "\\x22[a-z]*\\x22"], "AB": ["(ab)*c", "(ab)+", "a(bc)*d", "\\x03B1+", "[\\x03B1\\xFFFD]+", "\\x10FFFF|\\x0080+"]}
 LITERALS = ["if", "else", "=", "==", "(", ")", ";", "+", "in", "\\\\", "'"]
 
 
@@ -288,6 +288,31 @@ def random_lexeme(rng, dfa, maxlen):
     return None
 
 
+def grow_lexeme(dfa, lx, length):
+    """lx with one of its characters repeated until it is `length` long, if the automaton loops there (e.g. inside [a-z]+)"""
+    start, finals, trans = dfa
+    def step(s, c):
+        for lo, hi, t in trans.get(s, []):
+            if lo <= c <= hi:
+                return t
+        return None
+    s = start
+    for i, ch in enumerate(lx):
+        t = step(s, ord(ch))
+        if t is None:
+            return None
+        if step(t, ord(ch)) == t:          # a self-loop on this character
+            out = lx[:i + 1] + ch * max(0, length - len(lx)) + lx[i + 1:]
+            q = start
+            for c2 in out:
+                q = step(q, ord(c2))
+                if q is None:
+                    return None
+            return out if q in finals else None
+        s = t
+    return None
+
+
 def gen_text(rng, dfa, maxtok, short):
     parts = []
     for _ in range(rng.choice([0, 1, 2, 3, 5, 8])):
@@ -297,7 +322,10 @@ def gen_text(rng, dfa, maxtok, short):
             if lx:
                 parts.append(lx)
         elif k < 0.8:
-            parts.append(rng.choice(["?", "@", "é", "€", "x9", "=", "a", "ab", "abab", "~"]))      # near-misses / strays (short: the 8-byte variant holds < 8 bytes of pending lexeme)
+            parts.append(rng.choice(["?", "@", "é", "€", "x9", "=", "a", "ab", "abab", "~",
+                                     # the first and last code point of every UTF-8 length, the neighbours of the surrogates, U+FFFD (what
+                                     # decoders return for garbage - here a character like any other)
+                                     "\x7f", "\u0080", "\u07ff", "\u0800", "\ud7ff", "\ue000", "\ufffd", "\ufffc", "\uffff", "\U00010000", "\U0010ffff"]))      # near-misses / strays
         parts.append(rng.choice([" ", " ", "\n", "\t", "", "  ", "\r\n", " \n "]))
     t = "".join(parts)
     if rng.random() < 0.3:
@@ -373,7 +401,7 @@ def run(ctx):
             if made <= (1 if quick else 3):
                 reader_correspondence(ctx, d, pkg, env, stats, quick)
             ntext = 300 if quick else 1500
-            small_texts = [gen_text(rng, dfa, 5, True) for _ in range(ntext)]
+            small_texts = [gen_text(rng, dfa, rng.choice([5, 5, 12, 40]), True) for _ in range(ntext)]     # lexemes shorter and (much) longer than the 8-byte halves
             std_texts = [gen_text(rng, dfa, 12, False) for _ in range(ntext // 2)]
             # paddings that move tokens across the 4096-byte buffer halves (and the end of the input onto them)
             base = [gen_text(rng, dfa, 8, False) for _ in range(6)]
@@ -383,6 +411,15 @@ def run(ctx):
                         std_texts.append(" " * pad + b)
                         std_texts.append(b + "\n" * pad + b)
                         stats["texts_at_4096_boundary"] += 2
+            # tokens longer than a half, than the whole buffer, than several buffers (4096-byte halves)
+            for _ in range(3 if quick else 12):
+                lx = random_lexeme(rng, dfa, 40)
+                if lx:
+                    for L in (4090, 4097, 8190, 8193, 9000, 20000):
+                        grown = grow_lexeme(dfa, lx, L)
+                        if grown:
+                            std_texts.append("a " + grown + " " + lx)
+                            stats["texts_with_tokens_longer_than_the_buffer"] = stats.get("texts_with_tokens_longer_than_the_buffer", 0) + 1
             for variant, texts in (("small", small_texts), ("std", std_texts)):
                 lines = [hx(t.encode()) for t in texts]
                 try:
@@ -420,7 +457,7 @@ def run(ctx):
            "samples": samples or ["-"], "outcomes": stats,
            "explanation": "proof: for every automaton the model of the emitted NextToken is maximal munch with exact partition and positions (Emerge/Props/C19.lean); translation validation: the compiled artefact is run against that model per text; the reader (input.go.tmpl) is proved to be the plain byte stream for every half size, length and alignment (C19_reader, model Emerge.Reader) and that model is driven call by call against the emitted input.go (half sizes 1..16 and 4096, chunked sources); the UTF-8 assembly of Next from next is exercised, not proved",
            "trusted_base": TRUSTED_BASE + ["Go compiler/runtime for the emitted package", "hand model of the reader (Emerge.Reader) validated against the emitted input.go by the call-by-call correspondence"]}
-    return ctx.finish(LEVEL, cov, ["inputs are valid UTF-8 without NUL (the reader reserves NUL); a pending lexeme longer than the buffer half is outside the reader's contract (tokens are kept short in the 8-byte variant)"])
+    return ctx.finish(LEVEL, cov, ["inputs are valid UTF-8 without NUL (the reader reserves NUL as its end-of-input sentinel)"])
 
 
 def replay(ctx, rp):
